@@ -216,8 +216,8 @@ func r111(c *Ctx) {
 			if w.fn != um {
 				continue
 			}
-			if call, isC := w.val.(*ssa.Call); isC && isCallTo(call.Common(), nlb) {
-				if e, isE := call.Call.Args[0].(*ssa.Extract); isE {
+			if call, isC := nonNilSource(w.val).(*ssa.Call); isC && isCallTo(call.Common(), nlb) {
+				if e, isE := nonNilSource(call.Call.Args[0]).(*ssa.Extract); isE {
 					if tl, isT := e.Tuple.(*ssa.Call); isT && isCallTo(tl.Common(), ntl) {
 						c1, d1 := isDecodedField(tl.Call.Args[0])
 						c2, d2 := isDecodedField(tl.Call.Args[1])
@@ -345,7 +345,7 @@ func r114(c *Ctx) {
 		for _, m := range callsTo(um, mah) {
 			if f, _, ok := fieldLoad(m.common().Args[0]); ok {
 				for _, w := range c.writesOfField(f) {
-					if w.fn == um && w.val == ssa.Value(lb) && dominates(w.instr, m.instr) {
+					if w.fn == um && nonNilSource(w.val) == ssa.Value(lb) && dominates(w.instr, m.instr) {
 						marked = true
 					}
 				}
